@@ -315,7 +315,12 @@ class Parser:
     #
     def expand_macro(self, buf, tok, math):
         buf.next()
-        buf.skip_space()    # for macros without arguments, even if known
+        # skip space for macros without arguments, even if known;
+        # but do not swallow a language switch, e.g., the one that closes
+        # the argument of \foreignlanguage
+        while (buf.is_space(buf.cur())
+                    and type(buf.cur()) is not defs.LanguageToken):
+            buf.next()
         if tok.txt not in self.the_macros:
             if not (math or tok.txt in self.unknowns):
                 self.unknowns.append(tok.txt)
